@@ -198,6 +198,119 @@ theorem parseWith_bad (hM : Mono S) (fuel : Nat) (s : σ)
 
 end mono
 
+/-! ## a parser fault stays -/
+
+section fault
+variable {σ : Type} {S : Source σ}
+
+def Faulty (p : Parser σ) : Prop := p.fault ≠ .none
+
+theorem concatLoop_faulty (b : Bool) : ∀ (f : Nat) (T : Token) (p : Parser σ),
+    Faulty p → Faulty (concatLoop S b f T p).2 := by
+  intro f
+  induction f with
+  | zero => intro T p _; unfold concatLoop Faulty; simp
+  | succ f ih =>
+    intro T p h
+    unfold concatLoop
+    simp only
+    have h1 : Faulty (pullTok S b p).2 := h
+    split
+    · exact h1
+    · split
+      · split
+        · exact h1
+        · have h2 : Faulty (pullTok S b (pullTok S b p).2).2 := h1
+          split
+          · exact h2
+          · split
+            · exact ih _ _ h2
+            · exact h2
+      · exact h1
+
+theorem next_faulty (b : Bool) (f : Nat) (p : Parser σ) (h : Faulty p) : Faulty (next S b f p).2 := by
+  unfold next
+  split
+  · exact h
+  · simp only
+    have h1 : Faulty (pullTok S b p).2 := h
+    split
+    · exact h1
+    · split
+      · exact concatLoop_faulty b f _ _ h1
+      · exact h1
+
+theorem fetchArg_faulty (kw : Token) (f : Nat) (p : Parser σ) (h : Faulty p) : Faulty (fetchArg S kw f p).2.2 := by
+  unfold fetchArg
+  simp only
+  have h1 := next_faulty (S := S) (kw.text = patternKw) f p h
+  split
+  · split
+    · exact next_faulty false f _ h1
+    · exact h1
+  · exact h1
+
+theorem stmt_block_faulty : ∀ (f : Nat),
+    (∀ (p : Parser σ), Faulty p → Faulty (nextStatement S f p).2) ∧
+    (∀ (acc : List Statement) (p : Parser σ), Faulty p → Faulty (blockLoop S f acc p).2) := by
+  intro f
+  induction f with
+  | zero =>
+    constructor
+    · intro p _; unfold nextStatement Faulty; simp
+    · intro acc p _; unfold blockLoop Faulty; simp
+  | succ f ih =>
+    obtain ⟨ihs, ihb⟩ := ih
+    constructor
+    · intro p h
+      unfold nextStatement
+      simp only
+      have h1 := next_faulty (S := S) false f p h
+      split
+      · exact h1
+      · rename_i t _
+        split
+        · exact h1
+        · split
+          · exact h1
+          · have h2 := fetchArg_faulty (S := S) t f _ h1
+            split
+            · exact h2
+            · split
+              · exact h2
+              · split
+                · have h3 := ihb [] _ (show Faulty (setDepth ((fetchArg S t f (next S false f p).2).2.2.depth + 1)
+                      (fetchArg S t f (next S false f p).2).2.2) from h2)
+                  split
+                  · exact h3
+                  · exact h3
+                · exact h2
+    · intro acc p h
+      unfold blockLoop
+      simp only
+      have h1 := ihs p h
+      split
+      · exact h1
+      · exact h1
+      · exact ihb _ _ h1
+
+theorem topLoop_faulty : ∀ (f : Nat) (acc : List Statement) (p : Parser σ),
+    Faulty p → Faulty (topLoop S f acc p).2 := by
+  intro f
+  induction f with
+  | zero => intro acc p _; unfold topLoop Faulty; simp
+  | succ f ih =>
+    intro acc p h
+    unfold topLoop
+    simp only
+    have h1 := (stmt_block_faulty (S := S) f).1 p h
+    split
+    · exact h1
+    · exact ih _ _ h1
+    · exact ih _ _ h1
+
+end fault
+
 /-! ## two sources in step -/
 
 /-- `R` relates states of two sources that have not written an error and will hand out the same
